@@ -226,10 +226,100 @@ impl Harness for Reentrant {
   }
 }
 
+/// a subscriber behind a pipeline whose `next` callback emits into (or completes) the subject the
+/// pipeline is built on - "emitting into a subject they are being called from"
+pub struct Feedback {
+  pub topo: crate::topo::Topo,
+}
+
+impl Harness for Feedback {
+  fn name(&self) -> String {
+    format!("C07/feedback/{}", self.topo.name())
+  }
+  fn fuel(&self) -> i64 {
+    600
+  }
+  fn run(&self) -> Verdict {
+    let n = self.topo.n_sources();
+    let sbjs: Vec<subjects::Subject<'static, Sym>> = (0..n).map(|_| subjects::Subject::new()).collect();
+    let srcs: Vec<Obs> = sbjs.iter().map(|s| s.observable()).collect();
+    let built = crate::topo::build(&self.topo, &srcs, "t");
+    // what the callback does: 0 nothing, 1 push into source k, 2 complete source k, 3 unsubscribe itself
+    let action = sym::choose("action", 4);
+    let target = sym::choose("target", n);
+    let on = sym::choose("on", 2);
+    let desc = format!("topo={} action={} target={} on={}", built.label, action, target, ["next", "complete"][on]);
+    sym::note(desc.clone());
+    let depth = Arc::new(Mutex::new(0usize));
+    let my_sub: Arc<Mutex<Option<Subscription<'static>>>> = Arc::new(Mutex::new(None));
+    let react = {
+      let sb = sbjs[target].clone();
+      let depth = depth.clone();
+      let my_sub = my_sub.clone();
+      move || {
+        burn();
+        {
+          let mut d = depth.lock().unwrap();
+          if *d >= 1 {
+            return;
+          }
+          *d += 1;
+        }
+        match action {
+          1 => sb.next(Sym::konst(99)),
+          2 => sb.complete(),
+          3 => {
+            let s = my_sub.lock().unwrap().clone();
+            if let Some(s) = s {
+              s.unsubscribe();
+            }
+          }
+          _ => {}
+        }
+        *depth.lock().unwrap() -= 1;
+      }
+    };
+    let (r1, r2) = (react.clone(), react.clone());
+    let conn = built.extra.connect.as_ref().map(|c| c());
+    let s = built.obs.subscribe(
+      move |_x: Sym| {
+        if on == 0 {
+          r1()
+        } else {
+          burn()
+        }
+      },
+      |_e| burn(),
+      move || {
+        if on == 1 {
+          r2()
+        } else {
+          burn()
+        }
+      },
+    );
+    *my_sub.lock().unwrap() = Some(s);
+    // drive every source: two items, then completion
+    for round in 0..2 {
+      for (k, sb) in sbjs.iter().enumerate() {
+        sb.next(Sym::konst((10 * k + round) as i64));
+      }
+    }
+    for sb in sbjs.iter() {
+      sb.complete();
+    }
+    drop(conn);
+    Verdict { prop: None, structural: None, sample: desc, signature: String::new(), nontrivial: action != 0, detail: vec![] }
+  }
+}
+
 pub fn plan(tier: Tier, seed: u64) -> Plan {
   let mut h: Vec<Arc<dyn Harness>> = vec![];
   for t in TARGETS {
     h.push(Arc::new(Reentrant { target: t }));
+  }
+  for t in crate::topo::catalogue(false, false) {
+    h.push(Arc::new(Feedback { topo: t }));
   }
   let mut add = |p: Plan, every: usize| {
     for (i, x) in p.harnesses.into_iter().enumerate() {
@@ -261,6 +351,9 @@ pub fn by_name(name: &str) -> Option<Arc<dyn Harness>> {
   if let Some(r) = name.strip_prefix("C07/reentrant/") {
     let t = TARGETS.iter().copied().find(|t| format!("{:?}", t) == r)?;
     return Some(Arc::new(Reentrant { target: t }));
+  }
+  if let Some(r) = name.strip_prefix("C07/feedback/") {
+    return Some(Arc::new(Feedback { topo: crate::topo::Topo::from_name(r)? }));
   }
   if let Some(r) = name.strip_prefix("C07/abn/") {
     let inner = super::by_name(r)?;
